@@ -49,6 +49,8 @@ FIXED = [
  ("C19", "fix: the scanner tells objects from tags by which pattern matched", "with an object-left delimiter longer than a whole tag that ends the source (Delims(\"((((\", \"))))\", \"<\", \">\"), template 'x<z>') Scan sliced past the end of the source and panicked"),
  ("C13", "fix: the trim hyphen of a tag without arguments is not taken as its argument", "in {% name -%} the argument pattern took the hyphen: an application tag saw TagArgs() == \"-\" (and {% capture -%} captured into a variable called '-'), so the hyphen changed non-whitespace output"),
  ("C10", "fix: false of a named boolean type is false", "a value of type 'type Flag bool' holding false was compared with the untyped constant false and counted as true in if/unless/case, under and/or and in the default filter (also C09)"),
+ ("C08", "fix: integers of every width work as array index, range bound and loop modifier", "a[i] was nil, (1..n) and limit:/offset:/cols: failed when the number was an int64 (e.g. the result of divided_by), a uint, an int8 or a named integer type: only the Go type int was accepted (also C11, C18)"),
+ ("C09", "fix: 'map contains key' with a key or map key type that is a named string type", "{% if m contains t %} was false when t had a named string type and m was keyed by string (or the reverse)"),
 ]
 KNOWN = [
  # (property, key, what)
